@@ -39,6 +39,8 @@ static void load_data(PhaseSpace& ps, unsigned nx, unsigned nb, uint64_t dseed, 
     long zero_bunch = (nb > 1 && r.chance(0.15)) ? r.range(0, (long)nb - 1) : -1;   // sometimes one bunch holds no charge at all
     for (unsigned b = 0; b < nb; b++) {
         double cx = r.uniform(0.2, 0.8) * nx, cy = r.uniform(0.3, 0.7) * nx, sx = r.uniform(0.05, 0.3) * nx, sy = r.uniform(0.1, 0.3) * nx, amp = r.uniform(0.1, 2);
+        // nearly empty bunches: form factors whose squares are subnormal or underflow (a bucket holding 1e-10 .. 1e-30 of a bunch's charge)
+        if (r.chance(0.2)) amp *= r.pick(std::vector<double>{1e-8, 1e-10, 1e-12, 1e-13, 1e-14, 1e-15, 1e-17, 1e-20, 1e-30});
         for (unsigned x = 0; x < nx; x++) for (unsigned y = 0; y < nx; y++) {
             double v;
             if (kind == 0) v = amp * std::exp(-0.5 * (std::pow((x - cx) / sx, 2) + std::pow((y - cy) / sy, 2)));
